@@ -16,6 +16,7 @@ import threading
 import traceback
 
 _SENTINEL = ("<close-sentinel>",)
+_REAL_UNLINK = os.unlink
 
 
 class _Baton(object):
@@ -75,6 +76,7 @@ class VProc(object):
         self.local_cache = None
         self.killed = False
         self.exitcode_pending = None
+        self.in_fsop = False
 
     def _thread_main(self):
         _tls.proc = self
@@ -293,7 +295,7 @@ class Sched(object):
                     acts.append(Action("%s:exit(%s)" % (n, p.exitcode_pending), p, "exit", self._mk_exit(p), 2))
             elif k == "lock":
                 path = op[1]
-                if path not in self.locks:
+                if not self._lock_present(path):
                     acts.append(Action("%s:lock(%s)" % (n, path), p, "lock", self._mk_lock(p, path), 1))
             elif k == "unlock":
                 acts.append(Action("%s:unlock(%s)" % (n, op[1]), p, "unlock", self._mk_unlock(p, op[1]), 1))
@@ -303,6 +305,8 @@ class Sched(object):
                 acts.append(Action("%s:write-begin(%s)" % (n, op[1]), p, "wbegin", self._mk_wbegin(p, op[1]), 1))
             elif k == "wend":
                 acts.append(Action("%s:write-end(%s)" % (n, op[1]), p, "wend", self._mk_wend(p, op[1]), 1))
+            elif k == "fsop":
+                acts.append(Action("%s:%s(%s)" % (n, op[1], self.rel(op[2])), p, "fsop", self._mk_fsop(p, op[1], op[2], op[3], op[4]), 1))
             elif k == "pause":
                 acts.append(Action("%s:resume(%s)" % (n, op[1]), p, "pause", self._mk_res(p, None), 1))
             elif k in ("start", "close", "join_thread", "local"):
@@ -439,6 +443,29 @@ class Sched(object):
 
         return fn
 
+    def _lock_present(self, path):
+        # an existence lock: the marker *file* is the lock (so that code which removes marker
+        # files by path really affects who can acquire)
+        if self.root:
+            return os.path.exists(os.path.join(self.root, path))
+        return path in self.locks
+
+    def _mk_fsop(self, p, kind, path, real, args):
+        def fn():
+            try:
+                r = real(*args)
+            except OSError as e:
+                self._resume(p, exc=e)
+                return
+            rel = self.rel(path)
+            if rel in self.locks and not self._lock_present(rel):
+                holder = self.locks.pop(rel)
+                if holder != p.pid:
+                    self.violations.append(("lock-marker-removed-by-other-process", "%s removed the lock marker %s held by %s" % (p.name, rel, self.procs[holder].name)))
+            self._resume(p, result=r)
+
+        return fn
+
     def _mk_lock(self, p, path):
         def fn():
             self.locks[path] = p.pid
@@ -458,7 +485,7 @@ class Sched(object):
             self.locks.pop(path, None)
             if self.root:
                 try:
-                    os.unlink(os.path.join(self.root, path))
+                    _REAL_UNLINK(os.path.join(self.root, path))
                 except FileNotFoundError:
                     pass
             self._resume(p)
@@ -734,6 +761,23 @@ class Patched(object):
         pyramid.PyramidIO.read_image = read_image
         pyramid.PyramidIO.write_image = write_image
         sys.stdout = _Null()
+        # removing a file under the scratch root is an operation other processes can observe
+        self.real_unlink = os.unlink
+        self.real_remove = os.remove
+        real_unlink = self.real_unlink
+
+        def unlink(path, *a, **k):
+            pr = current_proc()
+            if pr is not None and sched.root and isinstance(path, str) and path.startswith(sched.root) and not sched.aborting and not pr.in_fsop:
+                pr.in_fsop = True
+                try:
+                    return sched.op("fsop", "unlink", path, real_unlink, (path,) + a)
+                finally:
+                    pr.in_fsop = False
+            return real_unlink(path, *a, **k)
+
+        os.unlink = unlink
+        os.remove = unlink
         return self
 
     def __exit__(self, *exc):
@@ -751,6 +795,8 @@ class Patched(object):
             pyramid.PyramidIO.write_image,
             sys.stdout,
         ) = self.saved
+        os.unlink = self.real_unlink
+        os.remove = self.real_remove
         CURRENT = None
         return False
 
